@@ -394,10 +394,13 @@ func (m nsTypeMatcher) Match(p stanza.Packet, match *RouteMatch) bool {
 
 // IQNamespaces adds an IQ matcher, expecting both an IQ and a
 func (r *Route) StanzaType(types ...string) *Route {
+	// Types are compared in lower case. The caller's slice is neither modified nor retained
+	// (a variadic call f(s...) passes the caller's own slice).
+	lowered := make([]string, len(types))
 	for k, v := range types {
-		types[k] = strings.ToLower(v)
+		lowered[k] = strings.ToLower(v)
 	}
-	return r.AddMatcher(nsTypeMatcher(types))
+	return r.AddMatcher(nsTypeMatcher(lowered))
 }
 
 // -------------------------
